@@ -10,6 +10,7 @@ import Driver.C19
 import Driver.C15
 import Driver.C17
 import Driver.Fed
+import Driver.C10
 open GqlVerif GqlVerif.Driver
 
 /-- dispatch one request; unknown op → `unsupported` -/
@@ -27,6 +28,7 @@ def dispatch (op : String) (args : Json) : Option Json :=
   | "c15.write" => some (c15write args)
   | "c17.facts" => some (c17facts args)
   | "fed.exec" => some (fedExec args)
+  | "c10.check" => some (c10check args)
   | "c19.decode" => some (c19decode args)
   | "c05.lex" => some (c05lex args)
   | "c05.limits" => some (c05limits args)
